@@ -26,12 +26,16 @@ Definition C06_full_statement : Prop :=
     spells lines pos (sn_value n).
 
 (** ** UNCONDITIONAL soundness (new with fix 6c7f5de: a line break only gets a position when it stands for a byte
-    of the value): for EVERY line table, node and minColumn — any layout, any style, also the remaining finding
-    class — a call that returns either found nothing (the one-column fallback of fix 75918ac) or returns positions
+    of the value): for EVERY line table, node that is not double quoted, and minColumn — any layout, plain, single-quoted,
+    literal, folded — a call that returns either found nothing (the one-column fallback of fix 75918ac) or returns positions
     that are well formed, inside the file and read back, in order and up to line folding, a PREFIX of the value.
     So a diagnostic offset never lands on a byte that is not the corresponding byte of the value; what can still
-    go wrong is only that the scan does not get to the end (completeness, next theorem). *)
+    go wrong is only that the scan does not get to the end (completeness, next theorem).  Double-quoted nodes are
+    excluded: there an escape sequence is located as one token ([scan_line_dq]) and a hidden byte reads back the escape's
+    text (finding C06-dq-escape); without a backslash on the scanned lines they behave like any other node
+    ([scan_line_dq_plain], used by the guarded theorem below). *)
 Theorem C06_positions_spell_prefix : forall lines n minCol pos,
+  sn_dq n = false ->
   new_position_range lines n minCol = Ok pos ->
   pos = fallback n \/
   (wf pos /\ exists rb done_ left_,
@@ -149,8 +153,9 @@ Proof.
 Qed.
 Print Assumptions C06_read_range_lands.
 
-(** ** Unconditional: every successful call returns a non-empty, well-formed list of ranges on lines >= the
-    node's line; the ranges are inside the file (readable) whenever the node's own position is. *)
+(** ** Unconditional (every node, also double-quoted ones with any escape sequences: [scan_line_dq_inv]): every
+    successful call returns a non-empty, well-formed list of ranges on lines >= the node's line; the ranges are inside
+    the file (readable) whenever the node's own position is. *)
 Theorem C06_positions_nonempty_inside : forall lines n minCol pos,
   new_position_range lines n minCol = Ok pos ->
   pos <> [] /\ wf pos /\ lines_ge (sn_line n) pos /\
@@ -198,7 +203,7 @@ Print Assumptions C06_lines_of_encloses.
     has no anchor and a column >= 1. *)
 Theorem C06_shift_equivariance : forall pre p lines n minCol pos,
   (p = EmptyString \/ Forall (fun l => l <> EmptyString) lines) ->
-  ascii_only p = true -> sn_anchor n = EmptyString -> 1 <= sn_col n ->
+  ascii_only p = true -> sn_anchor n = EmptyString -> sn_dq n = false -> 1 <= sn_col n ->
   new_position_range lines n minCol = Ok pos ->
   new_position_range (shift_lines pre p lines) (shift_node (Z.of_nat (List.length pre)) (slen p) n) (minCol + slen p)
   = Ok (add_offset (Z.of_nat (List.length pre)) (slen p) pos).
@@ -267,23 +272,37 @@ Print Assumptions C06_plain_end_to_end.
 Definition tab : string := String (ascii_of_N 9) EmptyString.
 Definition nl : string := String (ascii_of_N 10) EmptyString.
 
-(** [- alert: "a\tb"]: the tab byte never occurs in the source, the scan runs through the following lines and
-    finds the [b] of [alert: Next] on line 3. *)
+(** [- alert: "a\tb"]: the tab byte has no byte of its own in the source.  Since the dq-escape fix the escape
+    sequence is one token: the tab is located on the last column of [\t] (the [t], column 13), the scan stays in sync
+    ([b] on column 14, three positions for three value bytes, all on line 1) — but read back LITERALLY the positions
+    spell [atb], not the value: the literal reading of the property stays refuted for exactly these bytes. *)
 Definition w_dq_lines : list string :=
   ["- alert: ""a\tb"""; "  expr: up == 0"; "- alert: Next"; "  expr: up == 1"]%string.
-Definition w_dq_node : snode := mksn0 ("a" ++ tab ++ "b")%string 1 10.
+Definition w_dq_node : snode := mksn ("a" ++ tab ++ "b")%string 1 10 false EmptyString true.
 
 Theorem C06_refuted_dq_escape :
   exists pos, new_position_range w_dq_lines w_dq_node 1 = Ok pos /\
               spells_b w_dq_lines pos (sn_value w_dq_node) = false /\
-              pos = [mkp 1 11 11].
-Proof. eexists. split; [vm_compute; reflexivity|]. split; vm_compute; reflexivity. Qed.
+              pos = [mkp 1 11 11; mkp 1 13 14] /\ read_back w_dq_lines pos = Some "atb"%string /\
+              plen pos = slen (sn_value w_dq_node).
+Proof. eexists. split; [vm_compute; reflexivity|]. repeat split; vm_compute; reflexivity. Qed.
 Print Assumptions C06_refuted_dq_escape.
+
+(** the escapes of YAML 1.2 on one line: every value byte gets a position, in order, on the columns of its own escape
+    sequence or literal byte (backslash-n: the n; backslash-u00e9: the last two hex digits for the two UTF-8 bytes;
+    an escaped double quote: the quote; a doubled backslash: the second one), and the scan ends on the closing part of the scalar, not in a later rule. *)
+Example C06_dq_escapes_in_sync :
+  let line := "    s: ""down\nsince \u00e9 \""x\"" \\n"""%string in
+  let v := ("down" ++ nl ++ "since " ++ bs [195;169]%N ++ " ""x"" \n")%string in
+  new_position_range ["- alert: A"; line; "- alert: downsince"]%string (mksn v 2 8 false EmptyString true) 1
+  = Ok [mkp 2 9 12; mkp 2 14 20; mkp 2 25 27; mkp 2 29 30; mkp 2 32 33; mkp 2 35 36].
+Proof. vm_compute. reflexivity. Qed.
+Print Assumptions C06_dq_escapes_in_sync.
 
 (** folded block with a blank line (fixed by 6c7f5de): the break of the blank line gets no position. *)
 Definition w_fb_lines : list string :=
   ["- alert: Foo"; "  expr: up == 0"; "  annotations:"; "    summary: >-"; "      first line"; ""; "      second"]%string.
-Definition w_fb_node : snode := mksn ("first line" ++ nl ++ "second")%string 4 14 true EmptyString.
+Definition w_fb_node : snode := mksn ("first line" ++ nl ++ "second")%string 4 14 true EmptyString false.
 
 Example C06_folded_blank_fixed :
   new_position_range w_fb_lines w_fb_node 1 = Ok [mkp 5 7 17; mkp 7 7 12] /\
@@ -297,8 +316,8 @@ Definition w_bh_lines : list string :=
   ["- alert: Foo"; "  expr: | # up"; "    up == 0"; "- alert: Bar"; "  expr: |-"; "    -1 * foo"]%string.
 
 Example C06_block_header_fixed :
-  new_position_range w_bh_lines (mksn ("up == 0" ++ nl)%string 2 9 true EmptyString) 1 = Ok [mkp 3 5 11] /\
-  new_position_range w_bh_lines (mksn "-1 * foo"%string 5 9 true EmptyString) 1 = Ok [mkp 6 5 12].
+  new_position_range w_bh_lines (mksn ("up == 0" ++ nl)%string 2 9 true EmptyString false) 1 = Ok [mkp 3 5 11] /\
+  new_position_range w_bh_lines (mksn "-1 * foo"%string 5 9 true EmptyString false) 1 = Ok [mkp 6 5 12].
 Proof. split; vm_compute; reflexivity. Qed.
 Print Assumptions C06_block_header_fixed.
 
@@ -307,7 +326,7 @@ Definition w_si_lines : list string :=
   ["- alert: Foo"; "  expr: |"; "   up == 0"; "- alert: Bar"; "  expr: up"; "   == 0"]%string.
 
 Example C06_shallow_indent_fixed :
-  new_position_range w_si_lines (mksn ("up == 0" ++ nl)%string 2 9 true EmptyString) 1 = Ok [mkp 3 4 10] /\
+  new_position_range w_si_lines (mksn ("up == 0" ++ nl)%string 2 9 true EmptyString false) 1 = Ok [mkp 3 4 10] /\
   new_position_range w_si_lines (mksn0 "up == 0"%string 5 9) 1 = Ok [mkp 5 9 11; mkp 6 4 7] /\
   spells_b w_si_lines [mkp 5 9 11; mkp 6 4 7] "up == 0"%string = true.
 Proof. repeat split; vm_compute; reflexivity. Qed.
@@ -328,7 +347,7 @@ Definition w_lb_lines : list string :=
   ["- alert: Foo"; "  expr: up == 0"; "  annotations:"; "    summary: |"; ""; "      text"]%string.
 
 Example C06_block_leading_blank_fixed :
-  new_position_range w_lb_lines (mksn (nl ++ "text" ++ nl)%string 4 14 true EmptyString) 1 = Ok [mkp 5 1 1; mkp 6 7 10] /\
+  new_position_range w_lb_lines (mksn (nl ++ "text" ++ nl)%string 4 14 true EmptyString false) 1 = Ok [mkp 5 1 1; mkp 6 7 10] /\
   spells_b w_lb_lines [mkp 5 1 1; mkp 6 7 10] (nl ++ "text" ++ nl)%string = true.
 Proof. split; vm_compute; reflexivity. Qed.
 Print Assumptions C06_block_leading_blank_fixed.
@@ -348,7 +367,7 @@ Print Assumptions C06_multibyte_prefix_fixed.
 (** anchored scalar (fixed by 69b377d): yaml.v3 reports the node at the [&] (column 9), the value [up == 0] starts
     at column 13. *)
 Example C06_anchor_prefix_fixed :
-  new_position_range ["- alert: Foo"; "  expr: &up up == 0"]%string (mksn "up == 0"%string 2 9 false "up"%string) 1
+  new_position_range ["- alert: Foo"; "  expr: &up up == 0"]%string (mksn "up == 0"%string 2 9 false "up"%string false) 1
   = Ok [mkp 2 13 19].
 Proof. vm_compute. reflexivity. Qed.
 Print Assumptions C06_anchor_prefix_fixed.
@@ -367,15 +386,16 @@ Example C06_nonvacuous :
   node_ok ["- alert: Foo"; "  expr: up == 0  # comment"]%string (mksn0 "up == 0"%string 2 9) 1 = true /\
   Lay1 Plain ["- alert: Foo"; "  expr: up == 0  # comment"]%string (mksn0 "up == 0"%string 2 9) /\
   Lay1 SingleQuoted ["- alert: 'it''s'"]%string (mksn0 "it's"%string 1 10) /\
-  Lay1 DoubleQuotedSimple ["  summary: ""say \""hi\"""""]%string (mksn0 "say ""hi"""%string 1 12).
+  Lay1 DoubleQuotedSimple ["  summary: ""say hi"" # x"]%string (mksn "say hi"%string 1 12 false EmptyString true).
 Proof.
   split; [vm_compute; reflexivity|]. split; [|split].
-  - split; [discriminate|]. repeat (split; [reflexivity|]). split; [|reflexivity].
+  - split; [discriminate|]. repeat (split; [reflexivity|]). split; [|split; [reflexivity|discriminate]].
     exists "  expr: up == 0  # comment"%string, "  expr: "%string, "  # comment"%string. repeat split.
-  - split; [discriminate|]. repeat (split; [reflexivity|]). split; [|discriminate].
+  - split; [discriminate|]. repeat (split; [reflexivity|]). split; [|split; discriminate].
     exists "- alert: 'it''s'"%string, "- alert: "%string, ""%string. repeat split.
-  - split; [discriminate|]. repeat (split; [reflexivity|]). split; [|discriminate].
-    exists "  summary: ""say \""hi\"""""%string, "  summary: "%string, ""%string. repeat split.
+  - split; [discriminate|]. repeat (split; [reflexivity|]). split; [|split; [discriminate|]].
+    + exists "  summary: ""say hi"" # x"%string, "  summary: "%string, " # x"%string. repeat split.
+    + intros _. exists "  summary: ""say hi"" # x"%string. split; reflexivity.
 Qed.
 Print Assumptions C06_nonvacuous.
 
